@@ -119,7 +119,7 @@ static void fmon_eof(void);
 
 static int verif_getc(FILE *f)
 {
-  (void)f;
+  __CPROVER_assert(f != 0, "C08: read from a NULL stream");
   if (g_pos >= g_len)
     {
       g_eof_seen = 1;
@@ -138,7 +138,7 @@ static int verif_getc(FILE *f)
 static size_t verif_fread(void *dst, size_t size, size_t n, FILE *f)
 {
   size_t want = n, got;
-  (void)f;
+  __CPROVER_assert(f != 0, "C08: read from a NULL stream");
   __CPROVER_assert(size == 1, "model: fread element size is 1");
   got = g_len - g_pos;
   if (got > want) got = want;
@@ -199,27 +199,32 @@ static _Bool g_stdin_used;
 #define optind verif_optind
 #define optarg verif_optarg
 
-/* getopt_long: returns -1 (options exhausted) or an option character; optind stays within
-   [1, argc]; for an option that takes an argument optarg points to a NUL-terminated string. */
-static int verif_getopt_long(int argc)
+/* getopt_long per its contract: returns -1 (options exhausted), '?' (error, message already printed), a short
+   option of the optstring "+d:D:l:" (each takes an argument: optarg is a NUL-terminated string), or the val of
+   one of the long options in the caller's table -- whose optarg is a string if and only if that entry's
+   has_arg is non-zero, and NULL otherwise.  optind stays within [1, argc]. */
+static int verif_getopt_long(int argc, const struct option *longopts)
 {
   int r = nondet_int();
   int adv = nondet_int();
   __CPROVER_assume(adv >= 0 && adv <= 2 && verif_optind + adv <= argc);
   verif_optind += adv;
-  if (r == -1) { verif_optarg = 0; return -1; }
-  __CPROVER_assume(r == '?' || r == 'D' || r == 'h' || r == 'l' || r == 'd');
-  if (r == '?') g_diag_inc();             /* getopt itself prints the error message */
-  if (r == 'D' || r == 'l' || r == 'd')
-    {
-      verif_optarg_obj[15] = 0;
-      verif_optarg = verif_optarg_obj;
+  verif_optarg = 0;
+  if (r == -1) return -1;
+  if (nondet_bool())
+    {                                   /* a long option: entry k of the table */
+      unsigned k = nondet_uint();
+      __CPROVER_assume(k < 4 && longopts[k].name != 0);
+      if (longopts[k].has_arg) { verif_optarg_obj[15] = 0; verif_optarg = verif_optarg_obj; }
+      return longopts[k].val;
     }
-  else
-    verif_optarg = 0;
+  __CPROVER_assume(r == '?' || r == 'D' || r == 'l' || r == 'd');
+  if (r == '?') { g_diag_inc(); return r; }   /* getopt itself prints the error message */
+  verif_optarg_obj[15] = 0;
+  verif_optarg = verif_optarg_obj;
   return r;
 }
-#define getopt_long(argc, argv, s, o, li) verif_getopt_long(argc)
+#define getopt_long(argc, argv, s, o, li) verif_getopt_long((argc), (o))
 
 /* strcmp: the real semantics on strings of at most 15 characters (every string a harness supplies
    -- option arguments, argv words -- lives in a 16-byte NUL-terminated buffer; the program's own
@@ -261,7 +266,7 @@ static FILE *verif_fopen(const char *name, const char *mode)
   mon_indent_run = 0;
   return &verif_file_obj;
 }
-static int verif_fclose(FILE *f) { (void)f; return nondet_bool() ? EOF : 0; }
+static int verif_fclose(FILE *f) { __CPROVER_assert(f != 0, "C08: fclose on a NULL stream"); return nondet_bool() ? EOF : 0; }
 static int verif_fflush(FILE *f)
 {
   if (f == stdout) { if (verif_out_fail()) return EOF; return 0; }
